@@ -104,15 +104,15 @@ Definition process_results (p : pspec) (lay : layout) (nts : list ascii) : res r
   let fuel := S (List.length (p_sups p)) in
   fold_left (fun acc '(n, (items, l, _)) =>
       do a <- acc;
-      match afind (l_tstart lay) n with
-      | None => Err "strand-not-placed"
-      | Some s0 =>
-          do v <- read_positions nts s0 l;
-          match wc_codes v with
-          | None => Err "keyerror"
-          | Some _ => do s' <- set_items fuel p items v (r_state a);
-                      OK {| r_state := s'; r_strands := r_strands a ++ [(n, v)] |}
-          end
+      (* the position of a strand is looked up nucleotide by nucleotide: an empty strand needs none *)
+      do s0 <- match afind (l_tstart lay) n with
+               | Some s0 => OK s0
+               | None => if Nat.eqb l 0 then OK 0 else Err "strand-not-placed" end;
+      do v <- read_positions nts s0 l;
+      match wc_codes v with
+      | None => Err "keyerror"
+      | Some _ => do s' <- set_items fuel p items v (r_state a);
+                  OK {| r_state := s'; r_strands := r_strands a ++ [(n, v)] |}
       end) (p_strands p) (OK {| r_state := []; r_strands := [] |}).
 
 Fixpoint join_plus (l : list (list ascii)) : list ascii :=
